@@ -407,6 +407,10 @@ impl<const N: usize> SlotManager<N> {
         if newest.1.segment_size != second_newest.1.segment_size {
             return Ok(None);
         }
+        if newest.1.num_segments.0 as usize > BitArray::<[u8; 256]>::ZERO.len() {
+            // more parity rows than `used` can index: not written by start_update
+            return Ok(None);
+        }
         if self
             .is_reasonably_sized::<T::Error>(
                 second_newest.1.segment_size.0,
